@@ -46,6 +46,9 @@ CHECKS = {
  'C11': dict(cat='exploration', tech='trace checker over rendered token positions: the generator tracks the presumed (file, line, column) of every token under markers/#line/splices/comments; the first stderr line of the decorated run must name the location of the token the undecorated run blames',
              text='Every catalogue violation is placed on a logical line of its own among filler lines and rendered plain (oracle: the diagnostic is on the violation line or on the one look-ahead token after a complete construct, column >= 1, file as given) and decorated with gcc line markers with flags, #line with and without file, backslash-newline between and inside tokens, block comments over several lines, line comments continued by a splice, newlines inside macro invocations, blank/pragma/null-directive lines, blank or spliced lines right after a marker, units split over up to three input files, stdin; the decorated diagnostic must carry exactly the presumed file and line of the same token.',
              note='Columns are recorded (equal/differs) but not judged. Diagnostics whose text changes under decoration are skipped and listed (0 on the current tree).', ref='4/C11'),
+ 'C09': dict(cat='exploration', tech='bounded-exhaustive declaration histories: the symbol table read from the emitted IL (definitions, export/thread keywords, referenced-but-undefined names, initial bytes) compared with the ELF symbol tables of gcc and clang for the same history',
+             text='All histories of up to 3 (thorough: 4) declarations of one identifier over {none, static, extern, _Thread_local combinations} x {file, block scope} x {with/without initialiser} for objects, the same with inline / extern inline / static inline / _Noreturn and bodies for functions, and arrays of known/unknown size (tentative completion, composite type), each followed by a use, plus random longer histories with assembler labels; a history both gcc and clang accept under -std=c11 -pedantic-errors must be accepted, and per identifier: defined or not, exported or local, thread-local or not, size and bytes of the surviving definition, undefined references, number/locality/initial values of block-scope statics and the thread marking of every reference must match the reference object.',
+             note='exhaustive=true refers to the history enumeration up to the stated length. Histories gcc rejects are skipped (C10 judges rejections); histories whose behaviour is undefined (block-scope extern array size never repeated at file scope) are not generated. K18 (thread-local tentative then initialised) is recorded.', ref='4/C09'),
  'C03': dict(cat='exploration', tech='online validator (re-implemented QBE parse/typecheck/SSA rules) over every accepted output; strace write-fault injection',
              text='Every module printed with exit status 0 (suite, corpus, generated, odd-shaped and mutated inputs, cproc\'s own sources; three targets) is parsed and checked by an independent IL validator; output faults are injected at the k-th write.',
              note='Trusted: vf.ilcheck (silent on the 159 stored .qbe files and the self-compiled IL); data sizes vs C objects are judged by C06/C07.', ref='4/C03'),
